@@ -25,7 +25,8 @@ def _file(mciipm, rows, enc, blocked, trailer=True, tables=None):
 def replay_extract(table, cfg, expanded, enc, blocked, member, lens, index='all', rows=None, mid_trailer=None):
     from cardutil import mciipm
     from cardutil.config import config
-    layout = config['mci_parameter_tables'][table] if cfg == 'packaged' else cfg
+    from . import packaged
+    layout = packaged.param_tables()[table] if cfg == 'packaged' else cfg
     given = rows
     rows = []
     for i, (t, n) in enumerate(zip(member, lens)):
